@@ -56,7 +56,13 @@ def presentations(rnd, X, tree, allow_overlap):
         L += [rnd.choice(L) for _ in range(rnd.randint(1, 3))]
     if allow_overlap and L and rnd.random() < 0.34:
         c = rnd.choice(L)
-        if rnd.random() < 0.5 and tree.res(c) < 4:
+        k = rnd.random()
+        if k < 0.4:
+            # an ancestor at a random level, the world cell included
+            path = tree.path(c)
+            if len(path) > 1:
+                L.append(path[rnd.randrange(1, len(path))])
+        elif k < 0.7 and tree.res(c) < 4:
             ch = tree.a5.cell_to_children(c)
             L += rnd.sample(ch, rnd.randint(1, len(ch)))
         else:
